@@ -145,6 +145,42 @@ theorem C02_full (cfg : Searcher.Config) (m : MatcherI) (σ : Script) (inp : Byt
     (⟨inp, script, 0⟩ : Reader).withBomPeek (withBomPeek_noZero _ hz)
   exact this.1
 
+/-- **C02 under a heap limit** (`--dfa-size-limit`-independent `heap_limit` of the searcher: the roll
+buffer may not grow beyond `limit`): the same statement as `C02_full` for EVERY allocation policy
+`Config::line_buffer` can build -- either `search_reader` makes exactly the callbacks of
+`search_slice` and returns the same `Ok` / `Err`, or (only with a heap limit) it fails with the
+allocation error after a PREFIX of those callbacks: nothing is reordered, altered or invented before
+the error. -/
+theorem C02_heap_limit (cfg : Searcher.Config) (m : MatcherI) (σ : Script) (inp : Bytes) (script : List Step)
+    (heapLimit cap : Option Nat) (hbin : cfg.binary = .none) (hml : cfg.multiLine = false)
+    (hslow : isLineByLineFast cfg m (Core.new cfg true) = false) (hz : NoZero script) :
+    ((searchReader cfg m σ heapLimit cap ⟨inp, script, 0⟩).events = (searchSlice cfg m σ inp).events ∧
+      (searchReader cfg m σ heapLimit cap ⟨inp, script, 0⟩).result = (searchSlice cfg m σ inp).result) ∨
+    (heapLimit.isSome = true ∧ (searchReader cfg m σ heapLimit cap ⟨inp, script, 0⟩).result = .err ∧
+      ∃ rest, (searchSlice cfg m σ inp).events = (searchReader cfg m σ heapLimit cap ⟨inp, script, 0⟩).events ++ rest) := by
+  have hmm : multiLineWithMatcher cfg m = false := by simp [multiLineWithMatcher, hml]
+  unfold searchReader searchSlice
+  simp only [hmm, Bool.false_eq_true, if_false]
+  have hterm : (lineBufferConfig cfg heapLimit cap).lineterm = cfg.lineTerm.asByte := by
+    unfold lineBufferConfig
+    cases heapLimit with
+    | none => rfl
+    | some l => dsimp only
+  have hb : (lineBufferConfig cfg heapLimit cap).binary = .none := by
+    unfold lineBufferConfig
+    cases heapLimit with
+    | none => simp [hbin, BinaryDetection.toLB]
+    | some l => dsimp only; simp [hbin, BinaryDetection.toLB]
+  have halloc : (lineBufferConfig cfg heapLimit cap).alloc ≠ .eager → heapLimit.isSome = true := by
+    intro h
+    cases heapLimit with
+    | none => exact absurd (by simp [lineBufferConfig]) h
+    | some l => rfl
+  rcases readByLine_vs_sliceByLine_alloc m σ hbin hslow (lineBufferConfig cfg heapLimit cap) hterm hb
+    (⟨inp, script, 0⟩ : Reader).withBomPeek (withBomPeek_noZero _ hz) with h | h
+  · exact Or.inl h
+  · exact Or.inr ⟨halloc h.1, h.2.1, h.2.2⟩
+
 /-- **C02 without context lines** (the closed-form route, kept: it also gives the event stream as
 a function of the lines, `specRun`): for every configuration without context lines (`-A`, `-B`, `-C` = 0;
 passthru, inversion, `stop_on_nonmatch`, line numbers on/off, any terminator), on the slow path,
@@ -199,6 +235,22 @@ example :
            .context .after (some 5) 8 [100, 10], .contextBreak, .context .before (some 7) 12 [102, 10],
            .matched (some 8) 14 [120, 10], .finish 16 none] := by
   refine ⟨rfl, by decide, by decide⟩
+
+/-- Non-vacuity of `C02_heap_limit`: heap limit 4 (capacity 4, no growth), `-A1`: the 7-byte line does
+not fit, the reader fails with the allocation error after `begin`, the match and its after-context
+line -- a proper prefix of what the slice searcher delivers. -/
+example :
+    let cfg : Searcher.Config := { afterContext := 1 }
+    let m : MatcherI := MatcherI.ofFindAt (fun h at_ =>
+      ((h.drop at_).findIdx? (· == 120)).map fun i => ⟨at_ + i, at_ + i + 1⟩)
+    let inp : Bytes := [120, 10, 97, 10, 98, 98, 98, 98, 98, 98, 10, 120, 10]
+    (searchReader cfg m allCont (some 4) none ⟨inp, [.ret 1], 0⟩).result = .err ∧
+      (searchReader cfg m allCont (some 4) none ⟨inp, [.ret 1], 0⟩).events
+        = [.begin, .matched (some 1) 0 [120, 10], .context .after (some 2) 2 [97, 10]] ∧
+      (searchSlice cfg m allCont inp).events
+        = [.begin, .matched (some 1) 0 [120, 10], .context .after (some 2) 2 [97, 10], .contextBreak,
+           .matched (some 4) 11 [120, 10], .finish 13 none] := by
+  refine ⟨by decide, by decide, by decide⟩
 
 /-- Non-vacuity of `C02_partial`: passthru, NUL-free text with LF inside... a capacity-1 buffer,
 1-byte reads with an interrupted one, a matcher that selects lines containing `x`: the guard holds
